@@ -143,4 +143,6 @@ static void build_seeds(void) {
 		for (int i = 0; i < vn_nlog && i < 14; i++) { if (vn_log[i].hdr[0] != 22 || (i > 0 && vn_log[i - 1].hdr[0] == 20)) continue; char *nm = (char *)malloc(48); snprintf(nm, 48, "%s-handshake-record-%s%d", PNAME[pr], vn_log[i].dir ? "c2s" : "s2c", i); add_seed(nm, vn_log[i].copy, vn_log[i].len, c_tlsrec, 0); } }
 }
 #include <fcntl.h>
+#ifndef C06_LIB
 int main(int argc, char **argv) { vh_init(argc, argv); NUL = fopen("/dev/null", "w"); app_fill(); build_seeds(); if (!freopen("/dev/null", "w", stderr)) {} vh_guarded("C06", body, 20); return vh_finish(); }
+#endif
